@@ -382,6 +382,21 @@ def run_scenario(sc, props):
             out.append(("C02", "history whose lots cannot cover a disposal was accepted"))
     if base_err is not None and cov and "C02" not in props and props & {"C01", "C03", "C04", "C05"}:
         out.append((sorted(props & {"C01", "C03", "C04", "C05"})[0], f"valid history rejected: {base_err}"))
+    if base is None and "C09" in props and cov:
+        # the full history is rejected although every disposal is coverable: if a truncation computes, adding the later transactions
+        # changed what was computed for the earlier events (from figures to an error)
+        instants = sorted({inst(t["ts"]) for t in txs})
+        for cut in reversed(instants[:-1]):
+            sub = dict(sc)
+            sub["txs"] = [t for t in txs if inst(t["ts"]) <= cut]
+            if not any(t["tab"] == "IN" for t in sub["txs"]) or not any(taxable(t) for t in sub["txs"]):
+                continue
+            try:
+                compute(sub, from_date=MIN_DATE, to_date=MAX_DATE, allow_negative=True)
+            except RP2ValueError:
+                continue
+            out.append(("C09", f"the history truncated at {cut} computes, with the later transactions added the run is rejected: {base_err[:200]}"))
+            break
     if base is None:
         return out
     ents = entries_of(base)
@@ -681,6 +696,12 @@ def curated():
         out.append({"txs": [IN("2020-01-10T10:00:00+00:00", "10", "100", 2), OUT("2020-06-01T10:00:00+00:00", "4", "300", 3),
                             OUT("2021-02-01T10:00:00+00:00", "3", "400", 4), OUT("2021-08-01T10:00:00+00:00", "2", "500", 5), OUT("2022-03-01T10:00:00+00:00", "1", "600", 6)],
                     "schedule": {"1970": m}, "from": "2021-06-01", "to": "2022-06-30"})
+    for m in ("lifo", "hifo", "lofo", "fifo"):
+        # method change at New Year in a zone east of UTC: the first disposal of the new (local) year is still in the old year in UTC; a lot
+        # bought three hours after it - before UTC midnight - must not be offered to it, whatever the new method prefers (seed C09-5)
+        out.append({"txs": [IN("2020-06-01T10:00:00+09:00", "10", "200", 2), OUT("2021-01-01T02:00:00+09:00", "3", "250", 3),
+                            IN("2021-01-01T05:00:00+09:00", "5", "300" if m != "lofo" else "100", 4), OUT("2021-02-01T10:00:00+09:00", "4", "260", 5)],
+                    "schedule": {"1970": "fifo", "2021": m}})
     for sc in out:
         sc.setdefault("asset", "B1")
         sc.setdefault("allow_negative", True)
